@@ -180,6 +180,7 @@ chan_harness! {
     #[kani::unwind(4)]
     fn c07_spsc_last_sender_drop_vs_registering_receiver() {
         let rx = setup(false);
+        unsafe { np::HOOK = None };
         // the receiver's first half: nothing queued, sender alive
         assert!(rx.inner.try_recv() == Err(TryRecvError::Empty));
         static mut REGISTERED: bool = false;
